@@ -183,6 +183,7 @@ def run(run, ix, tier):
     check_cancelling_sums(run, ix)
     check_exact_root_exits(run, ix)
     check_half_integer_route(run, ix)
+    check_powm1_exact_path(run, ix)
     # ---- B-R8: real-axis delegation of the complex exp/trig family ---------------------------------
     run.rule('B-R8', floor=10, desc='complex exp/trig kernels delegate real-axis arguments to the real kernel')
     for name in AXIS_FAMILY:
@@ -420,6 +421,74 @@ def check_exact_root_exits(run, ix):
         run.fail(Finding('E-X1', LIBELE, 'exact_nthroot', 'def exact_nthroot', 'the candidates %s do not include '
                          'both neighbours of the truncated approximation (the approximation may lie on either '
                          'side of the root)' % sorted(cands), line=h.lineno))
+
+
+# --------------------------------------------------------------------------- E-X4
+def check_powm1_exact_path(run, ix):
+    """E-X4.  "powm1(x, y) = 0 exactly when x**y = 1", for mantissas of any size.  powm1 ends in
+    sum_accurately([x**y, -1]), which raises the precision by the observed cancellation and -- since the repair of
+    its non-termination -- gives up and returns 0 once the sum is still exactly zero at 100*prec + 1000 bits.  For an
+    operand whose difference from a root of unity lies deeper than that (x = -(1 + 2**-10000), y = 2) the answer 0 is
+    wrong.  For an integer exponent the power is a finite binary number; powm1 must therefore reach that fallback
+    only after a branch under `ctx.isint(y)` that (a) sets the working precision from the exponent AND the bit span
+    of x, restoring it in a finally clause, (b) forms x**n - one there, (c) returns the result."""
+    run.rule('E-X4', floor=3, desc='powm1 computes integer powers exactly before the cancelling subtraction')
+    f = ix.func('mpmath/functions/functions.py', 'powm1')
+    par = f.params
+    fall = [r for r in _walk_own(f.node) if isinstance(r, ast.Return) and r.value is not None and
+            'sum_accurately' in norm(r.value)]
+    if not fall:
+        raise AnalysisError('powm1: the sum_accurately fallback was not found')
+    branch = None
+    for x in f.node.body:
+        if isinstance(x, ast.If) and x.lineno < fall[0].lineno and \
+                norm(x.test).replace(' ', '') in ('%s.isint(%s)' % (par[0], par[2]),):
+            branch = x
+    if branch is None:
+        run.fail(Finding('E-X4', f.file, f.qualname, norm(fall[0]),
+                         'the cancelling fallback is reached for integer exponents as well: once x**y - 1 vanishes at '
+                         '100*prec + 1000 bits it returns 0 although x**y != 1 (powm1(-(1 + 2**-10000), 2))',
+                         line=fall[0].lineno))
+        return
+    run.ok('E-X4', 'powm1 has a branch for integer exponents before the cancelling fallback')
+    sets = [a for a in ast.walk(branch) if isinstance(a, ast.Assign) and norm(a.targets[0]) == '%s.prec' % par[0]]
+    tries = [t for t in ast.walk(branch) if isinstance(t, ast.Try) and t.finalbody]
+    raised = [a for a in sets if any(a in list(ast.walk(t_)) for t in tries for t_ in t.body)]
+    restored = any(isinstance(s, ast.Assign) and norm(s.targets[0]) == '%s.prec' % par[0] and
+                   isinstance(s.value, ast.Name) for t in tries for s in t.finalbody)
+    names = set()
+    for a in raised:
+        todo = [a.value]
+        seen = set()
+        while todo:
+            e = todo.pop()
+            for n_ in ast.walk(e):
+                if isinstance(n_, ast.Name) and n_.id not in seen:
+                    seen.add(n_.id)
+                    for d in ast.walk(branch):
+                        if isinstance(d, ast.Assign) and any(norm(t) == n_.id for t in d.targets):
+                            todo.append(d.value)
+        names |= seen
+    uses_exponent = par[2] in names
+    uses_size = par[1] in names and any(isinstance(c, ast.Subscript) or (isinstance(c, ast.Attribute) and c.attr == '_mpf_')
+                                        for a in ast.walk(branch) if isinstance(a, (ast.Assign,))
+                                        for c in ast.walk(a.value))
+    if raised and restored and uses_exponent and uses_size:
+        run.ok('E-X4', 'working precision of the exact power derived from the exponent and the bit span of x: `%s`'
+               % norm(raised[0], 60))
+    else:
+        run.fail(Finding('E-X4', f.file, f.qualname, norm(raised[0]) if raised else norm(branch.test),
+                         'the integer-exponent branch does not set (and restore) a working precision computed from both '
+                         'the exponent and the size of x: the power is not exact and the subtraction can still cancel '
+                         'completely', line=branch.lineno))
+    power = any(isinstance(b, ast.BinOp) and isinstance(b.op, ast.Sub) and norm(b.right) in ('one', '1') and
+                isinstance(b.left, (ast.Name, ast.BinOp)) for t in tries for s in t.body for b in ast.walk(s))
+    rets = [r for r in ast.walk(branch) if isinstance(r, ast.Return) and r.value is not None]
+    if power and rets:
+        run.ok('E-X4', 'the exact power minus one is formed at that precision and returned')
+    else:
+        run.fail(Finding('E-X4', f.file, f.qualname, norm(branch.test), 'the integer-exponent branch does not return '
+                         'x**n - 1 formed at the raised precision', line=branch.lineno))
 
 
 # --------------------------------------------------------------------------- E-X2
